@@ -12,4 +12,21 @@ ASSUMPTIONS = ['match length <= the MAX_MATCH constant read from find_longest_ma
 
 
 def run(ctx):
-    return num.lzss_rules(ctx) + [tabs.rule_compression_algorithms(ctx)]
+    from ..rules import sC12
+    # sC12.lzss_rules: copy of num.lzss_rules with two false alarms on behaviour-preserving rewrites repaired (see sa/rules/sC12.py)
+    from ..rules import sC10
+    tab = sC10.rule_strtab(ctx)          # algorithm selection: every #if branch carries the data its own compressor produced and unpacks to the same table
+    tab.id = 'C12-TAB'
+    for f in tab.findings:
+        f.rule = tab.id
+    return sC12.lzss_rules(ctx) + [tabs.rule_compression_algorithms(ctx), sC12.rule_match(ctx), sC12.rule_end(ctx), sC12.rule_caller(ctx), sC12.rule_literal(ctx), tab]
+
+# fourth strengthening round (session G11): rules of sa/rules/sC12.py
+DECIDES += (' C12-MATCH: the match finder takes candidates from the hash bucket of the 3-byte key at the current position (stored under keys of the same width), starts at that width, '
+            'extends by comparing data at equal distances from candidate and position, and reports the distance to the candidate whose length it measured. '
+            'C12-END: for 0..7 tokens in the last flag group and every flag pattern the statements after the token loop store the flags in the bits the decoder reads and remove only '
+            'the unused placeholder. C12-LIT: literal tokens carry data[pos], advance by one on both sides; the decoder returns the input position. '
+            'C12-CALLER: the decoder is given the size the result buffer was allocated with. C12-TAB: every #if branch of the string table carries the data its own compressor produced.')
+NOT_DECIDED = ('that offsets never reach before the start of the output (follows from the match finder invariants only together with the order of hash insertions), the lazy-matching '
+               'heuristic (affects only the ratio), the stdlib codecs of the other algorithms.')
+MUTATIONS = 'see /verif/mutants/C12/*/meta.json (33 brainstormed mutants: 26 breaking - all reported, 7 behaviour-preserving - all silent)'
